@@ -16,7 +16,7 @@ LEVEL_TEXT = ("Static structural proof of necessary conditions: (R13.1) HedSchem
               "storing it; (R13.3) the duplicate-library refusal runs before any schema is loaded, the clashing-name "
               "refusal follows every merge, the duplicate-prefix refusal dominates the group table. Equivalence of "
               "prefixed and unprefixed judgement and 'standard is contained in partnered library' are NOT decided.")
-LEVEL_EXTRA = 'Added after the seeded evaluation: (R13.4) namespace prefixes removed by length, the per-entry prefix established afresh in each iteration; (R13.5) a value stored in a per-object cache of the schema classes depends only on arguments its key depends on. (R13.6) the memoised standard schema is deep-copied before a library is merged into it. (R13.7) the capitalisation check splits the tag text without its namespace; the duplicate-library refusal is keyed by the library name.'
+LEVEL_EXTRA = 'Added after the seeded evaluation: (R13.4) namespace prefixes removed by length, the per-entry prefix established afresh in each iteration; (R13.5) a value stored in a per-object cache of the schema classes depends only on arguments its key depends on. (R13.6) the memoised standard schema is deep-copied before a library is merged into it. (R13.7) the capitalisation check splits the tag text without its namespace; the duplicate-library refusal is keyed by the library name. (R13.8) the prefix table is consulted with the prefix exactly as written.'
 
 SCHEMA_RECEIVERS = {"hed_schema", "_hed_schema", "_schema", "schema"}
 USER_PACKAGES = ("hed.validator", "hed.models", "hed.errors")
@@ -338,3 +338,14 @@ def run(ctx):
         ctx.check(g is not None, "R13.3", gi.qualname, s.ast, loc(gi, s.ast),
                   "the group's schema table is stored without the duplicate-prefix test and its raise",
                   desc="duplicate prefix refused before the group table is stored")
+
+    # ---------------- R13.8: the prefix table is consulted with the prefix as written
+    ctx.rule("R13.8", "HedSchemaGroup looks prefixes up exactly as written (a prefix that is not loaded is an error)")
+    from sa.norm import check_uniform, mapping_accesses
+    hsg = prog.find_class("HedSchemaGroup")
+    acc13 = []
+    for m in hsg.methods.values():
+        acc13 += [a for a in mapping_accesses(m, lambda e: isinstance(e, ast.Attribute) and e.attr == "_schemas") if a.kind in ("get", "load", "in")]
+    n13 = check_uniform(ctx, "R13.8", acc13, {"raw"}, "the prefix table `_schemas`",
+                        "`SC:Event` is identified under the schema loaded as `sc:` although `SC:` is not a loaded prefix")
+    ctx.floor("R13.8", "lookups in the prefix table", n13, 1)
